@@ -98,17 +98,17 @@ fn pool() -> Vec<Value> {
         Value::Int(i128::MAX), Value::Int(i128::MIN), Value::Int(i128::MAX - 1), Value::Int(i128::MIN + 1),
         Value::Int(i64::MAX as i128), Value::Int(i64::MAX as i128 + 1), Value::Int(i64::MIN as i128 - 1),
         Value::Int((1i128 << 64) + 1438226773), Value::Int(1i128 << 96), Value::Int(8210266876799), Value::Int(1438226773),
-        Value::Float(0.0), Value::Float(-0.0), Value::Float(1.0), Value::Float(2.5), Value::Float(-2.5), Value::Float(0.5),
+        Value::Float(0.0), Value::Float(-0.0), Value::Float(1.0), Value::Float(2.5), Value::Float(-2.5), Value::Float(0.5), Value::Float(-0.5), Value::Float(3.5), Value::Float(-7.25),
         Value::Float(f64::INFINITY), Value::Float(f64::NEG_INFINITY), Value::Float(f64::NAN), Value::Float(1e300),
         Value::Float(170141183460469231731687303715884105728.0), Value::Float(-170141183460469231731687303715884105728.0),
         Value::Float(f64::MAX), Value::Float(f64::MIN_POSITIVE),
-        dec("0"), dec("1"), dec("-1"), dec("2.5"), dec("0.5"), dec("1.0000000000000000000000000001"),
+        dec("0"), dec("1"), dec("-1"), dec("2.5"), dec("-2.5"), dec("-0.5"), dec("0.5"), dec("3.5"), dec("-7.25"), dec("1.0000000000000000000000000001"),
         Value::Decimal(Decimal::MAX), Value::Decimal(Decimal::MIN),
         Value::Bool(true), Value::Bool(false),
         Value::String(String::new()), Value::String(" ".into()), Value::String("\t\n ".into()), Value::String("\u{3000}\u{a0}".into()),
         Value::String(" é ".into()), Value::String("1".into()), Value::String("true".into()), Value::String(" Ab ".into()),
         Value::String("2015-07-30T03:26:13Z".into()), Value::String("i1".into()),
-        dt(0), dt(1438226773), dt(8210266876799), dt(-8334601228800),
+        dt(0), dt(1438226773), dt(8210266876799), dt(-8334601228800), dt(1451606400), dt(1546214400), dt(1483228799),
         dur(0), dur(1), dur(-1), dur(i64::MAX / 1000), dur(-(i64::MAX / 1000)), dur(604800),
         Value::Vec(vec![]), Value::Vec(vec![Value::Int(1), Value::None]), Value::Vec(vec![Value::Vec(vec![Value::Int(10), Value::Int(20)]), Value::Int(30)]),
         Value::Map(BTreeMap::new()), Value::Map(m1),
@@ -220,7 +220,7 @@ fn family_ops() {
     }
     // references: every input shape x names (near-miss keys)
     for f in &p {
-        for n in ["a", "A", "facts", "fact", "missing", ""] {
+        for n in ["a", "A", "facts", "Facts", "FACTS", "fact", "factsx", "missing", ""] {
             check_expr(&mut rep, "ref", &Expr::reff(n), f, &[]);
             check_expr(&mut rep, "ref", &Expr::index(Expr::reff(n), Index::Map("a".into())), f, &[]);
             check_expr(&mut rep, "ref", &Expr::index(Expr::reff("facts"), Index::Map(n.into())), f, &[]);
